@@ -65,6 +65,7 @@ package hashing
 // C01: the cache key of a target folds in the output hash of every target it depends on, directly or through an alias.
 // `dependencyHashes` is the slice handed to GetTargetChangeHash (whose contract says how the key is composed from it, C09).
 //@ func (*TargetHasher).SetTargetChangeHash(t, target) (err)
+//@   ensures [target_lock_released_on_every_path] mmHeld == old(mmHeld)
 //@   requires [graph] absEdges(t.graph) && endpointsAreNodes(t.graph)
 //@   modifies target.ChangeHash
 //@   reveal inTargets
